@@ -447,7 +447,7 @@ var flatTargets = func() []flatTarget {
 }()
 
 // list arrangements: all sequences of length <= 4 over these tokens
-var flatListTokens = []string{"objA", "iriA", "objB", "noid", "nil", "link", "iriC", "link-hashtag", "link-untyped"}
+var flatListTokens = []string{"objA", "iriA", "objB", "noid", "noid2", "nil", "link", "iriC", "link-hashtag", "link-untyped"}
 
 // wider token set for the random layer: every object kind as a list member too
 var flatListTokensWide = func() []string {
@@ -477,6 +477,9 @@ func flatListItem(tok string) vocab.Item {
 		return &vocab.Object{ID: "https://example.com/flat/B", Type: vocab.NoteType}
 	case "noid":
 		return &vocab.Object{Type: vocab.NoteType, Name: vocab.NaturalLanguageValues{{Ref: vocab.NilLangRef, Value: vocab.Content("no id")}}}
+	case "noid2":
+		// a second, different object without an id: nobody's duplicate
+		return &vocab.Actor{Type: vocab.PersonType, PreferredUsername: vocab.NaturalLanguageValues{{Ref: vocab.NilLangRef, Value: vocab.Content("anonymous")}}}
 	case "nil":
 		return nil
 	case "link":
@@ -517,7 +520,7 @@ func init() {
 	Register(&Prop{
 		ID: "C16",
 		Rule: "model: in actor, object, target, result, origin, instrument, attributedTo, replies, likes, shares every embedded non-collection object with an id becomes that id; IRIs, links (with or without id) and id-less objects stay; in to/bto/cc/bcc/audience likewise (the result may also be the de-duplication of the model, nothing else); no IRI may appear that was not in the original; every other property unchanged; flatten twice = once. " +
-			"Exhaustive: 9 kinds x {specific, generic, untyped} type names x every flattened single position x 30+ item shapes (IRI, objects with and without id, links, value forms, every non-collection object kind in pointer and value form, collections, lists) x {dispatching FlattenProperties, typed Flatten*Properties}; all list arrangements of length <= 4 over {object A, IRI A, object B, id-less object, nil, link, IRI C, a link typed outside the link vocabulary, an untyped link} in each of the five lists; random combinations; distinct = the case; non-trivial = all",
+			"Exhaustive: 9 kinds x {specific, generic, untyped} type names x every flattened single position x 30+ item shapes (IRI, objects with and without id, links, value forms, every non-collection object kind in pointer and value form, collections, lists) x {dispatching FlattenProperties, typed Flatten*Properties}; all list arrangements of length <= 4 over {object A, IRI A, object B, id-less object, a second different id-less object, nil, link, IRI C, a link typed outside the link vocabulary, an untyped link} in each of the five lists; random combinations; distinct = the case; non-trivial = all",
 		Layers: func(tier string) []Layer {
 			return []Layer{
 				{Name: "single-positions", N: len(flatTargets) * len(flatItemFields) * len(flatTokens) * 2, Exhaustive: true, Run: func(c *Ctx, idx int) {
